@@ -188,7 +188,8 @@ static void schedule(int kind) {
     switch (cfg.policy) {
     case POL_NP: break;
     case POL_RAND: case POL_BURST:
-        if (coin(cfg.sw_permille)) {
+        if (kind == K_BLOCKED) ch = R[rnd() % (unsigned)n]; /* a blocked thread hands over to a uniformly chosen runnable one */
+        else if (coin(cfg.sw_permille)) {
             if (kind == K_YIELD && n > 1) { int k = (int)(rnd() % (unsigned)(n - 1)); int idx = 0; for (int i = 0; i < n; i++) if (R[i] != cur) { if (idx == k) { ch = R[i]; break; } idx++; } }
             else ch = R[rnd() % (unsigned)n];
         }
@@ -201,7 +202,12 @@ static void schedule(int kind) {
         for (int i = 0; i < n; i++) if (thr[R[i]].prio > best) { best = thr[R[i]].prio; ch = R[i]; }
     } break;
     case POL_STARVE: {
-        if (is_starved(np)) { for (int i = 0; i < n; i++) if (!is_starved(R[i]) && !(kind == K_YIELD && R[i] == cur)) { ch = R[i]; break; } }
+        /* starved threads run only when every other runnable thread is merely spinning/yielding (so that spin-waits on a starved thread's progress terminate) */
+        int best = -1;
+        for (int i = 0; i < n && best < 0; i++) if (!is_starved(R[i]) && !thr[R[i]].spinning && !(kind == K_YIELD && R[i] == cur)) best = R[i];
+        if (best < 0) for (int i = 0; i < n && best < 0; i++) if (is_starved(R[i]) && !(kind == K_YIELD && R[i] == cur) && !thr[R[i]].spinning) best = R[i];
+        if (is_starved(np) && best >= 0) ch = best;
+        else if (kind == K_YIELD && best >= 0 && thr[np].spinning) ch = best;
     } break;
     case POL_EXPLICIT:
         while (dev_idx < cfg.ndev && cfg.dev[dev_idx].decision < st.decisions) dev_idx++;
